@@ -65,6 +65,14 @@ struct DTuple(u16, u16);
 #[stable_hash_crate(qbice_stable_hash)]
 enum DGen<T, U> { L(T), R(U), Both { l: T, r: U }, N }
 
+#[derive(StableHash, Debug, Clone, PartialEq)]
+#[stable_hash_crate(qbice_stable_hash)]
+enum DMixed { Unit, Number(u32), Text(String), Pair { a: u8, b: u8 }, Other }
+#[derive(StableHash, Debug, Clone, PartialEq)]
+#[stable_hash_crate(qbice_stable_hash)]
+enum DBig { V0, V1, V2, V3, V4, V5, V6, V7(u8), V8, V9, V10, V11, V12, V13, V14, V15, V16, V17, V18, V19, V20, V21, V22, V23, V24, V25, V26, V27, V28, V29, V30, V31, V32, V33, V34, V35, V36, V37, V38, V39, V40, V41, V42, V43, V44, V45, V46, V47, V48, V49, V50, V51, V52, V53, V54, V55, V56, V57, V58, V59, V60, V61, V62, V63, V64, V65, V66, V67, V68, V69, V70, V71, V72, V73, V74, V75, V76, V77, V78, V79, V80, V81, V82, V83, V84, V85, V86, V87, V88, V89, V90, V91, V92, V93, V94, V95, V96, V97, V98, V99, V100, V101, V102, V103, V104, V105, V106, V107, V108, V109, V110, V111, V112, V113, V114, V115, V116, V117, V118, V119, V120, V121, V122, V123, V124, V125, V126, V127, V128, V129, V130, V131, V132, V133, V134, V135, V136, V137, V138, V139, V140, V141, V142, V143, V144, V145, V146, V147, V148, V149, V150, V151, V152, V153, V154, V155, V156, V157, V158, V159, V160, V161, V162, V163, V164, V165, V166, V167, V168, V169, V170, V171, V172, V173, V174, V175, V176, V177, V178, V179, V180, V181, V182, V183, V184, V185, V186, V187, V188, V189, V190, V191, V192, V193, V194, V195, V196, V197, V198, V199, V200(u8), V201, V202, V203, V204, V205, V206, V207, V208, V209, V210, V211, V212, V213, V214, V215, V216, V217, V218, V219, V220, V221, V222, V223, V224, V225, V226, V227, V228, V229, V230, V231, V232, V233, V234, V235, V236, V237, V238, V239, V240, V241, V242, V243, V244, V245, V246, V247, V248, V249, V250, V251, V252, V253, V254, V255, V256, V257, V258, V259, V260, V261, V262, V263, V264, V265, V266, V267, V268, V269, V270, V271, V272, V273, V274, V275, V276, V277, V278, V279, V280, V281, V282, V283, V284, V285, V286, V287, V288, V289, V290, V291, V292, V293, V294, V295, V296, V297, V298, V299 { x: u64 } }
+fn dbig_all() -> Vec<DBig> { vec![DBig::V0, DBig::V1, DBig::V2, DBig::V3, DBig::V4, DBig::V5, DBig::V6, DBig::V7(0), DBig::V8, DBig::V9, DBig::V10, DBig::V11, DBig::V12, DBig::V13, DBig::V14, DBig::V15, DBig::V16, DBig::V17, DBig::V18, DBig::V19, DBig::V20, DBig::V21, DBig::V22, DBig::V23, DBig::V24, DBig::V25, DBig::V26, DBig::V27, DBig::V28, DBig::V29, DBig::V30, DBig::V31, DBig::V32, DBig::V33, DBig::V34, DBig::V35, DBig::V36, DBig::V37, DBig::V38, DBig::V39, DBig::V40, DBig::V41, DBig::V42, DBig::V43, DBig::V44, DBig::V45, DBig::V46, DBig::V47, DBig::V48, DBig::V49, DBig::V50, DBig::V51, DBig::V52, DBig::V53, DBig::V54, DBig::V55, DBig::V56, DBig::V57, DBig::V58, DBig::V59, DBig::V60, DBig::V61, DBig::V62, DBig::V63, DBig::V64, DBig::V65, DBig::V66, DBig::V67, DBig::V68, DBig::V69, DBig::V70, DBig::V71, DBig::V72, DBig::V73, DBig::V74, DBig::V75, DBig::V76, DBig::V77, DBig::V78, DBig::V79, DBig::V80, DBig::V81, DBig::V82, DBig::V83, DBig::V84, DBig::V85, DBig::V86, DBig::V87, DBig::V88, DBig::V89, DBig::V90, DBig::V91, DBig::V92, DBig::V93, DBig::V94, DBig::V95, DBig::V96, DBig::V97, DBig::V98, DBig::V99, DBig::V100, DBig::V101, DBig::V102, DBig::V103, DBig::V104, DBig::V105, DBig::V106, DBig::V107, DBig::V108, DBig::V109, DBig::V110, DBig::V111, DBig::V112, DBig::V113, DBig::V114, DBig::V115, DBig::V116, DBig::V117, DBig::V118, DBig::V119, DBig::V120, DBig::V121, DBig::V122, DBig::V123, DBig::V124, DBig::V125, DBig::V126, DBig::V127, DBig::V128, DBig::V129, DBig::V130, DBig::V131, DBig::V132, DBig::V133, DBig::V134, DBig::V135, DBig::V136, DBig::V137, DBig::V138, DBig::V139, DBig::V140, DBig::V141, DBig::V142, DBig::V143, DBig::V144, DBig::V145, DBig::V146, DBig::V147, DBig::V148, DBig::V149, DBig::V150, DBig::V151, DBig::V152, DBig::V153, DBig::V154, DBig::V155, DBig::V156, DBig::V157, DBig::V158, DBig::V159, DBig::V160, DBig::V161, DBig::V162, DBig::V163, DBig::V164, DBig::V165, DBig::V166, DBig::V167, DBig::V168, DBig::V169, DBig::V170, DBig::V171, DBig::V172, DBig::V173, DBig::V174, DBig::V175, DBig::V176, DBig::V177, DBig::V178, DBig::V179, DBig::V180, DBig::V181, DBig::V182, DBig::V183, DBig::V184, DBig::V185, DBig::V186, DBig::V187, DBig::V188, DBig::V189, DBig::V190, DBig::V191, DBig::V192, DBig::V193, DBig::V194, DBig::V195, DBig::V196, DBig::V197, DBig::V198, DBig::V199, DBig::V200(0), DBig::V201, DBig::V202, DBig::V203, DBig::V204, DBig::V205, DBig::V206, DBig::V207, DBig::V208, DBig::V209, DBig::V210, DBig::V211, DBig::V212, DBig::V213, DBig::V214, DBig::V215, DBig::V216, DBig::V217, DBig::V218, DBig::V219, DBig::V220, DBig::V221, DBig::V222, DBig::V223, DBig::V224, DBig::V225, DBig::V226, DBig::V227, DBig::V228, DBig::V229, DBig::V230, DBig::V231, DBig::V232, DBig::V233, DBig::V234, DBig::V235, DBig::V236, DBig::V237, DBig::V238, DBig::V239, DBig::V240, DBig::V241, DBig::V242, DBig::V243, DBig::V244, DBig::V245, DBig::V246, DBig::V247, DBig::V248, DBig::V249, DBig::V250, DBig::V251, DBig::V252, DBig::V253, DBig::V254, DBig::V255, DBig::V256, DBig::V257, DBig::V258, DBig::V259, DBig::V260, DBig::V261, DBig::V262, DBig::V263, DBig::V264, DBig::V265, DBig::V266, DBig::V267, DBig::V268, DBig::V269, DBig::V270, DBig::V271, DBig::V272, DBig::V273, DBig::V274, DBig::V275, DBig::V276, DBig::V277, DBig::V278, DBig::V279, DBig::V280, DBig::V281, DBig::V282, DBig::V283, DBig::V284, DBig::V285, DBig::V286, DBig::V287, DBig::V288, DBig::V289, DBig::V290, DBig::V291, DBig::V292, DBig::V293, DBig::V294, DBig::V295, DBig::V296, DBig::V297, DBig::V298, DBig::V299 { x: 1 }] }
+
 /// directed case (finding F5): a RangeInclusive iterated to exhaustion differs (==, is_empty, contains) from the fresh
 /// range with the same bounds; std's own Hash feeds the `exhausted` flag, StableHash feeds start and end only
 fn range_inclusive_exhausted() {
@@ -306,6 +314,21 @@ fn main() {
     all_distinct("bool tuples", &[(true, false), (false, true), (true, true), (false, false)]);
     all_distinct("Range vs RangeInclusive fields", &[(1u8..2).start as u16 * 256 + 2, 0x0201]);
     all_distinct("Duration", &[std::time::Duration::new(1, 0), std::time::Duration::new(0, 1), std::time::Duration::new(0, 0), std::time::Duration::new(1, 1)]);
+    {
+        // the whole range of Duration: around 2^32 s, around 2^64 ns (~584 years), up to Duration::MAX; (secs, nanos) swapped
+        use std::time::Duration as D;
+        let ns64 = (u64::MAX / 1_000_000_000, (u64::MAX % 1_000_000_000) as u32);
+        all_distinct("Duration: large values", &[D::new(ns64.0, ns64.1), D::new(ns64.0, ns64.1 + 1), D::new(ns64.0, ns64.1 - 1), D::new(ns64.0 + 1, 0), D::new(ns64.0 * 2, 0),
+            D::MAX, D::new(u64::MAX, 0), D::new(u64::MAX, 999_999_998), D::new(u64::MAX - 1, 999_999_999), D::new(1 << 32, 0), D::new((1 << 32) - 1, 999_999_999),
+            D::new(999_999_999, 1), D::new(1, 999_999_999), D::new(0, 999_999_999), D::new(999_999_999, 0), D::new(1 << 63, 0), D::new(1 << 63, 1)]);
+    }
+    {
+        // a derived enum with 300 variants, unit and data-carrying ones mixed, equal payloads under different variants
+        let mut vals: Vec<DBig> = dbig_all();
+        vals.extend([DBig::V7(1), DBig::V7(2), DBig::V200(1), DBig::V200(2), DBig::V299 { x: 0 }, DBig::V299 { x: 7 }]);
+        all_distinct("derived enum with 300 variants (unit and data variants mixed)", &vals);
+        all_distinct("derived enum, mixed: payload must be hashed", &[DMixed::Unit, DMixed::Number(1), DMixed::Number(2), DMixed::Text("1".into()), DMixed::Pair { a: 1, b: 2 }, DMixed::Pair { a: 2, b: 1 }, DMixed::Other]);
+    }
     {
         use derive_fix as _;
     }
